@@ -164,7 +164,7 @@ Proof.
   - intros n H T. vm_compute in H.
     repeat (destruct H as [H|H]; [subst n; try discriminate T; split; vm_compute; reflexivity|]). destruct H.
 Qed.
-Example ex_converts : exists n, convert ex_w = Ok n /\ length (elements n) = 28%nat /\ length (connections n) = 34%nat.
+Example ex_converts : exists n, convert ex_w = Ok n /\ length (elements n) = 28%nat /\ length (connections n) = 36%nat.
 Proof. eexists. split; [vm_compute; reflexivity|]. split; reflexivity. Qed.
 
 (* a duplicate (reversed) link: a violation in the sense of C20_sanity_rejects *)
